@@ -52,6 +52,7 @@ from fedjax.algorithms import hyp_cluster
 from fedjax.algorithms import mime
 from fedjax.algorithms import mime_lite
 from fedjax.core import serialization
+from fedjax.training import checkpoint as checkpoint_lib
 
 from vf.core import Check, Violation, require
 
@@ -550,6 +551,15 @@ def run_history(case):
           data = serialization.msgpack_serialize(leaves)
           copy = jax.tree_util.tree_unflatten(
               treedef, serialization.msgpack_deserialize(data))
+        elif len(op) > 1 and op[1] == 'checkpoint':
+          # the training package's checkpoint files with their default round
+          # number: one directory per history, used as a 'latest state' slot
+          ckdir = os.path.join(tmp, 'latest')
+          os.makedirs(ckdir, exist_ok=True)   # (the experiment loop creates its root_dir)
+          checkpoint_lib.save_checkpoint(ckdir, e.state)
+          loaded = checkpoint_lib.load_latest_checkpoint(ckdir)
+          require(loaded is not None, 'roundtrip_copy_differs', f'{where}: no checkpoint found')
+          copy = loaded[0]
         else:
           serialization.save_state(e.state, path)
           copy = serialization.load_state(path)
@@ -562,12 +572,28 @@ def run_history(case):
         cur = len(entries) - 1
         continue
       assert kind == 'apply', kind
+      edited = bool(case.get('edit_data')) and isinstance(system, AlgorithmSystem)
+      if edited:
+        # The caller relabels the examples of this round's clients IN PLACE
+        # (the same ClientDataset objects took part in earlier rounds): a round
+        # is a function of the values it is handed, also of these.
+        for i in sorted(set(op[1])):
+          y = system.datasets[i].raw_examples['y']
+          y += np.float32(0.125 * (1 + step % 3))
       args = system.make_args(op)
       args_before = flat(system.observe_args(args))
 
       new1, out1 = system.apply(e.state, args)
       snap1 = snapshot(out1, 'output_leaf_deleted', f'{where}: first call')
       system.check_output(args, out1)
+      if edited:
+        fresh = [(cid, fedjax.ClientDataset({k: np.array(v, copy=True)
+                                            for k, v in ds.raw_examples.items()}), key)
+                 for cid, ds, key in args]
+        _, out_f = system.apply(e.state, fresh)
+        require_same(snapshot(out_f, 'output_leaf_deleted', f'{where}: fresh datasets'), snap1,
+                     'round_over_datasets_in_use_differs_from_fresh_datasets_with_the_same_values',
+                     where)
       after1 = snapshot(e.state, 'argument_leaf_deleted',
                         f'{where}: argument state after the call')
       require_same(after1, before, 'argument_state_changed',
@@ -749,6 +775,8 @@ def labels(case):
     ls.append('agnostic_state_with_shorter_window')
   if case.get('weight_kind', 'float') != 'float':
     ls.append('weights_are_numpy_0d_arrays')
+  if case.get('edit_data'):
+    ls.append('client_examples_edited_in_place_between_rounds')
   if any(op[0] == 'apply' and len(set(op[1])) < len(op[1]) for op in case['ops']):
     ls.append('client_twice_in_one_round')
   if case['system'] in ALGS:
@@ -798,7 +826,7 @@ def ops_strategy(draw, tier, npool, allowed, repeats=True):
         ops.append(['branch', target])
         cur = target
       else:
-        ops.append(['roundtrip', draw(st.sampled_from(['pickle', 'pickle', 'msgpack']))])
+        ops.append(['roundtrip', draw(st.sampled_from(['pickle', 'pickle', 'msgpack', 'checkpoint']))])
         cur = n_states
         n_states += 1
     how = draw(st.sampled_from(['fresh', 'fresh', 'returning', 'same']))
@@ -870,6 +898,7 @@ def algorithm_strategy(alg):
                                      repeats=alg not in ('hyp_cluster', 'apfl')))}
     case.update(draw(other_instance_fields(case['ops'])))
     case['host_params'] = draw(st.sampled_from([None, None, 'F', 'C']))
+    case['edit_data'] = draw(st.integers(0, 3)) == 0
     if alg == 'agnostic':
       case['short_window'] = draw(st.sampled_from([False, False, True]))
     return case
